@@ -22,16 +22,21 @@ package dns
 
 //@ go func connWF(u *userConnection) bool {
 //@    return u.Serializer.Upstream.Encoder != nil && u.Serializer.Downstream.Encoder != nil &&
-//@       u.Serializer.Downstream.FragmentSize > 0 && u.remoteAddress != nil &&
+//@       u.Serializer.Downstream.FragmentSize > 0 && u.remoteAddress != nil && len(u.Serializer.Domain) <= 180 &&
 //@       util.InWF(&u.in) && util.OutWF(&u.out)
+//@ }
+
+//@ go func retiredWF(u *userConnection) bool {
+//@    return u.Serializer.Upstream.Encoder != nil && u.Serializer.Downstream.Encoder != nil &&
+//@       u.remoteAddress != nil && len(u.Serializer.Domain) <= 180
 //@ }
 
 //@ pred srvBase(s *ServerDnsListener) := len(s.connections) == 1296 && len(s.oldConnections) == 1296 && !spec_sameref(s.connections, s.oldConnections)
 //@      && s.usersLock != nil && s.Communicator != nil
 //@      && s.DefaultSerializer.Upstream.Encoder != nil && s.DefaultSerializer.Downstream.Encoder != nil
-//@      && s.DefaultSerializer.Downstream.FragmentSize > 0
+//@      && s.DefaultSerializer.Downstream.FragmentSize > 0 && len(s.DefaultSerializer.Domain) <= 180
 //@ pred connsWF(s *ServerDnsListener) := forall i :: 0 <= i && i < len(s.connections) ==> s.connections[i] == nil || (spec_allocated(s.connections[i]) && int(s.connections[i].UserId) == i && connWF(s.connections[i]))
-//@ pred oldWF(s *ServerDnsListener) := forall i :: 0 <= i && i < len(s.oldConnections) ==> s.oldConnections[i] == nil || (spec_allocated(s.oldConnections[i]) && int(s.oldConnections[i].UserId) == i && s.oldConnections[i].remoteAddress != nil)
+//@ pred oldWF(s *ServerDnsListener) := forall i :: 0 <= i && i < len(s.oldConnections) ==> s.oldConnections[i] == nil || (spec_allocated(s.oldConnections[i]) && int(s.oldConnections[i].UserId) == i && retiredWF(s.oldConnections[i]))
 //@ pred srvWF(s *ServerDnsListener) := srvBase(s) && connsWF(s) && oldWF(s)
 
 //@ func (s *ServerDnsListener) Addr
@@ -51,6 +56,8 @@ package dns
 //@   ensures err != nil && result != nil && result == s.connections[userId] ==> !sameAddr(result.remoteAddress, remoteAddr)   :foreign_address_rejected
 //@   ensures err != nil && s.connections[userId] != nil ==> s.connections[userId].lastConnection == old(s.connections[userId].lastConnection)   :rejected_message_leaves_session_untouched
 //@   ensures err != nil ==> err == commands.BadIp || err == commands.BadConn || err == commands.BadUser   :tunnel_error_codes
+//@   ensures result != nil && err != commands.BadConn ==> connWF(result) && result.UserId == userId     :usable_session
+//@   ensures result != nil ==> retiredWF(result)                                                          :answerable_session
 //@   ensures err == commands.BadConn ==> s.connections[userId] == nil && result != nil && result == s.oldConnections[userId]
 //@   ensures err == commands.BadUser ==> s.connections[userId] == nil && result == nil
 
@@ -99,3 +106,65 @@ package dns
 //@   property C13
 //@   pure
 //@   requires s.Communicator != nil
+
+// ---- message handlers: arbitrary (one-question) queries must be answered or ignored, never crash,
+//      allocate without bound or disturb the table invariant
+//@ go func userIdInRange(r commands.Request) bool {
+//@    switch v := r.(type) {
+//@    case *commands.PacketRequest: return v.UserId < 1296
+//@    case *commands.SetOptionsRequest: return v.UserId < 1296
+//@    case *commands.TestDownstreamFragmentSizeRequest: return v.UserId < 1296
+//@    case *commands.TestUpstreamEncoderRequest: return v.UserId < 1296
+//@    case *commands.TestDownstreamEncoderRequest: return v.DownstreamEncoder != nil
+//@    }
+//@    return true
+//@ }
+
+//@ func (s *ServerDnsListener) onMessage
+//@   property C12, C13
+//@   safe
+//@   requires srvWF(s) && m != nil && len(m.Question) == 1 && remoteAddr != nil          :one_question_message
+//@   ensures srvBase(s)                                                                   :table_kept
+//@   callsite DecodeDnsRequest#1 (req commands.Request, err error) assume err == nil ==> userIdInRange(req) "every Request.Decode that succeeds took the user id from DecodeRequestHeader (proved there: < 1296); refinement of the interface contract by the implementations is assumed"
+
+//@ func (s *ServerDnsListener) packet
+//@   property C12, C13
+//@   safe
+//@   callsite UpdateAcked#1 (user *userConnection) assume util.InWF(&user.in) "the in- and out-queue of a session own disjoint slices (separation assumption)"
+//@   callsite Append#1 (e0 error, user *userConnection) assume util.OutWF(&user.out) "the in- and out-queue of a session own disjoint slices (separation assumption)"
+//@   requires srvWF(s) && v != nil && v.UserId < 1296 && m != nil && len(m.Question) == 1 && remoteAddr != nil
+//@   ensures srvBase(s)
+
+//@ func (s *ServerDnsListener) version
+//@   property C12, C13
+//@   safe
+//@   requires srvWF(s) && v != nil && m != nil && len(m.Question) == 1 && remoteAddr != nil
+//@   ensures srvBase(s)
+
+//@ func (s *ServerDnsListener) setOptionsRequest
+//@   property C12, C13
+//@   safe
+//@   requires srvWF(s) && v != nil && v.UserId < 1296 && m != nil && len(m.Question) == 1 && remoteAddr != nil
+//@   ensures srvBase(s)
+//@   ensures connsWF(s)                                                                   :sessions_stay_usable
+
+//@ func (s *ServerDnsListener) testDownstreamFragmentSize
+//@   property C12, C13
+//@   safe
+//@   alloc_bound 65535
+//@   requires srvWF(s) && v != nil && v.UserId < 1296 && m != nil && len(m.Question) == 1 && remoteAddr != nil
+//@   ensures srvBase(s)
+//@   loop 1 vars i int
+//@   loop 1 invariant 0 <= i
+
+//@ func (s *ServerDnsListener) testUpstreamEncoder
+//@   property C12, C13
+//@   safe
+//@   requires srvWF(s) && v != nil && v.UserId < 1296 && m != nil && len(m.Question) == 1 && remoteAddr != nil
+//@   ensures srvBase(s)
+
+//@ func (s *ServerDnsListener) testDownstreamEncoder
+//@   property C12, C13
+//@   safe
+//@   requires srvWF(s) && v != nil && v.DownstreamEncoder != nil && m != nil && len(m.Question) == 1
+//@   ensures srvBase(s)
